@@ -5,8 +5,21 @@ claim("C19", "proof",
       "Trusted: rustc's trait solver; the obligation table in engine/py/witness.py transcribing the statement. Negative control (Rc<()>: Send must be rejected) runs every time.",
       "type checking of a trait-bound witness crate (compile-fail controlled)", "DESIGN.md §4 C19, §2.3")
 
+claim("C05", "other",
+      "Sufficient condition by Rust's ownership semantics, checked exactly over the whole crate in every configuration: no hand-written unsafe, no static/thread_local/interior-mutable const, every state field (transitively) in the grammar f64|usize|bool|Option<f64>|Box<[f64]>|crate struct, Clone is the builtin derive, every resolved callee of every function is crate-local, a user getter or in a classified deterministic std family (time, randomness, threads, cells, Rc, HashMap, raw pointers forbidden; unknown fails closed), no pointer-to-integer cast. Then next(&mut self, x) is a deterministic function of (*self, x) touching only memory owned by *self and clone copies it deeply, so independence under every interleaving/thread and run-to-run determinism follow without enumerating interleavings.",
+      "Trusted: safe-Rust aliasing semantics; the std family classification in engine/py/callees.py; purity of user getters. Decides the structural sufficient condition, not observed outputs.",
+      "ownership/effect analysis: type grammar + resolved-callee allowlist + AST item scan (rustc driver facts)", "DESIGN.md §4 C05")
+claim("C06", "other",
+      "Sufficient condition checked in the serde configuration: Serialize/Deserialize of all 22 indicators and DataItem are produced by serde_derive, carry no #[serde] attribute that skips/defaults/redirects a field (read from the expanded AST where inert attributes are still visible), all field types are in the lossless plain-data grammar, and the expanded derive has exactly one serialize_field / next_element / next_value+missing_field call per field. The restored value is then field-wise equal from every reachable state, so the checkpoint position is irrelevant.",
+      "Trusted: serde_derive's expansion semantics, bit-exact primitives in the byte format (bincode), determinism (C05). Does not execute a round trip.",
+      "impl provenance + attribute + expanded-derive call-count rules over serde-config facts", "DESIGN.md §4 C06")
+claim("C18", "other",
+      "Sufficient condition: indicator state contains no growable container (only Box<[f64]>, fixed length), no allocating or unclassified callee is reachable in the call graph from any of the 40 Next::next and 22 Reset::reset bodies, and buffers are created only in `new` aggregates (no re-store, no &mut of the Box). Feeding inputs therefore performs no allocation and cannot change the serialized size.",
+      "Trusted: callee family classification; user getters do not allocate on the indicator's behalf; transient allocation in fmt/serde is not state. The static bincode size formula (G4) is added once the symbolic constructor evaluation exists.",
+      "type grammar + call-graph reachability of allocating callees + buffer-store discipline", "DESIGN.md §4 C18")
+
 _PENDING = "claimed in DESIGN.md but its checker is not built yet in this commit; listed here until the check exists (see DESIGN.md §7 build order)"
-for _p in ["C02", "C03", "C04", "C05", "C06", "C07", "C08", "C09", "C10", "C11", "C12", "C14", "C15", "C16", "C17", "C18"]:
+for _p in ["C02", "C03", "C04", "C07", "C08", "C09", "C10", "C11", "C12", "C14", "C15", "C16", "C17"]:
     NA[_p] = _PENDING
 NA["C01"] = "numeric equality (within tau) of incremental window statistics with recomputation over runtime values: needs inductive array invariants plus floating-point error analysis, which no dataflow/typestate/shape analysis in reach delivers; a rule pinning the update expressions would be a frozen source fragment (DESIGN.md §4 C01)"
 NA["C13"] = "bounds accumulated floating-point rounding error after up to 2e6 data-dependent updates; no static analysis in reach bounds rounding drift, and the only structural ingredient (all accumulators are f64) is too weak to carry the property (DESIGN.md §4 C13)"
